@@ -1551,6 +1551,23 @@ def run(ctx):
     return propcheck.standard_check(ctx, spec)
 
 
+def replay(ctx, record):
+    """./check C09 --replay FILE: as the default (case through harness and runner), with the stack limit the large cases need"""
+    import json
+    case = record.get('case')
+    if not case:
+        print(json.dumps(record, indent=1))
+        return 1
+    impl, log = vlib.build_harness(SPEC['bin'])
+    runner, _ = vlib.build_runner(SPEC['runner'])
+    raise_stack_limit()
+    io = vlib.run_lines(impl, [case])[0]
+    print('impl :', io[:4000])
+    if runner:
+        print('model:', vlib.run_lines(runner, [case])[0][:4000])
+    return 1 if ' ||| FAIL' in io else 0
+
+
 MANIFEST = {
     'level_text': 'Machine-checked proof (Coq, 47 theorems closed under the global context) about a branch-faithful model of lopdf\'s stream '
                   'filter code, against specifications written from ISO 32000-1 and PNG 1.2: the Paeth predictor equals the PNG definition on '
